@@ -72,6 +72,7 @@ func c12Roundtrip(p vbase.Params, r *vbase.Result) {
 		parentQC := hotstuff.NewQuorumCert(nil, 0, gen.Hash())
 		var blocks []*hotstuff.Block
 		var qcs []hotstuff.QuorumCert
+		altQCs := map[hotstuff.Hash]hotstuff.QuorumCert{}
 		var pcsAll [][]hotstuff.PartialCert
 		clen := rng.Range(1, 3)
 		for k := 0; k < clen; k++ {
@@ -175,6 +176,29 @@ func c12Roundtrip(p vbase.Params, r *vbase.Result) {
 				}
 			}
 			qcs = append(qcs, qc)
+			// a second, equally valid certificate for the same block: the same signers in reverse order (another subset when
+			// there is room) - replicas may hold different certificates for one block
+			if len(signers) >= 2 {
+				alt := append([]hotstuff.ID(nil), signers...)
+				for a, b := 0, len(alt)-1; a < b; a, b = a+1, b-1 {
+					alt[a], alt[b] = alt[b], alt[a]
+				}
+				if len(signers) < n {
+					in := map[hotstuff.ID]bool{}
+					for _, id := range signers {
+						in[id] = true
+					}
+					for _, id := range IDs(n) {
+						if !in[id] {
+							alt[0] = id
+							break
+						}
+					}
+				}
+				if aq, _, err := w.HonestQC(blk, alt); err == nil {
+					altQCs[blk.Hash()] = aq
+				}
+			}
 			pcsAll = append(pcsAll, pcs)
 			parent, parentQC = blk, qc
 		}
@@ -226,7 +250,11 @@ func c12Roundtrip(p vbase.Params, r *vbase.Result) {
 			if len(qcs) == 0 || int(id)%2 == 0 {
 				return hotstuff.NewQuorumCert(nil, 0, gen.Hash())
 			}
-			return qcs[int(id)%len(qcs)]
+			qc := qcs[int(id)%len(qcs)]
+			if aq, ok := altQCs[qc.BlockHash()]; ok && int(id)%3 == 0 {
+				return aq // another replica's certificate for the same block
+			}
+			return qc
 		}
 		withMsg := rng.Bool()
 		tms := w.HonestTimeouts(tview, tsigners, qcOf, withMsg)
@@ -385,7 +413,28 @@ func c12Roundtrip(p vbase.Params, r *vbase.Result) {
 			}
 			back.ID = pm.ID
 			v1, v2 := other.Auth.VerifyAnyQC(&pm), other.Auth.VerifyAnyQC(&back)
-			if (v1 == nil) != (v2 == nil) && useAgg && scheme == crypto.NameBLS12 {
+			// VerifyAnyQC demands that the block's QC EQUALS the aggregate's high QC; when the aggregate attests two different
+			// certificates of the same (highest) view, which one is "the" high QC depends on map iteration order in the
+			// repository - with or without a wire round trip - so the verdict is not a function of the object
+			tie := false
+			if useAgg {
+				var top hotstuff.View
+				seen := map[string]bool{}
+				for _, qc := range agg.QCs() {
+					if qc.View() > top {
+						top = qc.View()
+					}
+				}
+				for _, qc := range agg.QCs() {
+					if qc.View() == top {
+						seen[qcStr(qc)] = true
+					}
+				}
+				tie = len(seen) > 1
+			}
+			if (v1 == nil) != (v2 == nil) && tie {
+				r.Obs("anyqc_verdicts_not_judged_high_qc_tie", 1)
+			} else if (v1 == nil) != (v2 == nil) && useAgg && scheme == crypto.NameBLS12 {
 				r.Obs("bls_library_defect_cases_skipped", 1) // same order dependence inside VerifyAggregateQC
 			} else if (v1 == nil) != (v2 == nil) {
 				fail("proposal", "verdict", fmt.Sprintf("VerifyAnyQC %v before, %v after", v1, v2))
